@@ -393,6 +393,12 @@ impl Prog {
             _ => true,
         })
     }
+    /// programs that are not `exact_ran` only because a map_ref sits directly over a map_with_old node: the engine may
+    /// re-invoke *more* than the reference there (accepted upstream), but "changes are never lost" still binds, so
+    /// the `missed` half of C06 is judged (added after seed C06-d)
+    pub fn missed_only(&self) -> bool {
+        !self.exact_ran() && self.nodes.iter().all(|n| !matches!(n.recipe, Recipe::DependOn(..) | Recipe::Xp(..)))
+    }
     pub fn has_stale_rhs(&self) -> bool {
         self.nodes.iter().any(|n| match &n.recipe {
             Recipe::Bind { even, odd, .. } => even.has_stale() || odd.has_stale(),
